@@ -38,4 +38,11 @@ const (
 	vpIterRefresh
 )
 
+// Late points: placed after a shared-memory step, where the rest of the
+// segment is local to the goroutine. The harness does not park here; it may
+// run another operation to completion at such a point.
+const (
+	vpIterHelped = iota + 40
+)
+
 func verifYield(point int, obj unsafe.Pointer) {}
